@@ -84,17 +84,18 @@ func NewSparseFile(name string, idx Index, s Store, opt SparseFileOptions) (*Spa
 		}
 	}
 
-	// Create the new file at full size, that was we can skip loading null-chunks,
-	// this should be a NOP if the file matches the index size already.
-	if err = f.Truncate(idx.Length()); err != nil {
+	// A state left in the save file was not accepted and does not describe the file
+	// as it is going to be. Replace it before touching the file: should this process
+	// die (or fail) before it saves its own state, the next start would find a file of
+	// the right size next to the stale state and serve the holes of the file for chunks
+	// marked done in it.
+	if err = sf.WriteState(); err != nil {
 		return nil, err
 	}
 
-	// A state left in the save file was not accepted and does not describe the file
-	// as it is now. Replace it right away: should this process die before it saves
-	// its own state, the next start would find a file of the right size next to the
-	// stale state and serve the holes of the file for chunks marked done in it.
-	if err = sf.WriteState(); err != nil {
+	// Create the new file at full size, that was we can skip loading null-chunks,
+	// this should be a NOP if the file matches the index size already.
+	if err = f.Truncate(idx.Length()); err != nil {
 		return nil, err
 	}
 
